@@ -71,7 +71,11 @@ Dev(d, m, v, marks) ==
          /\ m.topic \in {"att", "agg"} /\ E.variant \in {"deneb-window", "deneb-window+outer-sig-prefix2"}
          /\ FailNames(m) \subseteq {"slot_window", "outer_signature"} /\ "slot_window" \in FailNames(m)
          /\ ("outer_signature" \in FailNames(m)) = (E.variant = "deneb-window+outer-sig-prefix2")
-         /\ v = "ACCEPT" /\ marks = KeysOf(m)
+         /\ \/ v = "ACCEPT" /\ marks = KeysOf(m)
+            \* while the outer-signature finding is open, such an aggregate (not stopped at the window check)
+            \* with a CORRECT outer signature is REJECTed at the outer-signature check instead
+            \/ /\ m.topic = "agg" /\ "gossip-agg-outer-sig-truncated" \in KnownDeviations
+               /\ FailNames(m) = {"slot_window"} /\ v = "REJECT" /\ marks = {}
     [] d = "gossip-block-later-fork-conditions" ->
          \* ValidateBeaconBlock implements neither the bellatrix payload-timestamp nor the deneb blob-count condition.
          /\ m.topic = "block" /\ FailNames(m) # {} /\ FailNames(m) \subseteq {"payload_timestamp", "blob_count"}
